@@ -754,15 +754,34 @@ def observe(recipe, conf, want_canon=True, per_recipe_timeout=20, only=None, use
     return out
 
 
+def tree_fingerprint(pkg_dir):
+    """Digest of (path, size, mtime) of every source file of the tree under test."""
+    import os
+
+    h = hashlib.sha1()
+    for root, dirs, files in sorted(os.walk(pkg_dir)):
+        dirs.sort()
+        for f in sorted(files):
+            if f.endswith(".py"):
+                st = os.stat(os.path.join(root, f))
+                h.update(f"{os.path.relpath(os.path.join(root, f), pkg_dir)}:{st.st_size}:{st.st_mtime_ns};".encode())
+    return h.hexdigest()[:16]
+
+
 def child_main():
     """One child process = one interpreter start = one history."""
+    import os
+
     job = json.load(sys.stdin)
     import ufl  # noqa: F401  (through vf bootstrap: VERIF_REPO decides the tree)
+
+    fp0 = tree_fingerprint(os.path.dirname(ufl.__file__))
 
     res = {}
     for k in job["order"]:
         res[str(k)] = observe(job["recipes"][k], job["confs"][k], want_canon=job.get("canon", True))
-    sys.stdout.write("C12RESULT " + json.dumps({"ufl": ufl.__file__, "res": res}) + "\n")
+    fp1 = tree_fingerprint(os.path.dirname(ufl.__file__))
+    sys.stdout.write("C12RESULT " + json.dumps({"ufl": ufl.__file__, "tree": fp0 if fp0 == fp1 else "changed-while-running", "res": res}) + "\n")
     sys.stdout.flush()
 
 
